@@ -13,9 +13,9 @@ INFO = {
                   'rtamt.antlr.parser.stl.error.parser_error_listener', 'rtamt.syntax.ast.parser.stl.parser_visitor (visitInterval, visitIntervalTimeLiteral, visitConstantTimeLiteral, all visitExpr*)',
                   'rtamt.syntax.ast.parser.ltl.parser_visitor (visitExprId, visitExprLiteral, declarations)', 'rtamt/antlr/grammar/tl/*.g4 (read on every run: the oracle)'],
     'bounds': {'quick': 'texts obtained from 6 templates (16-45 characters) by REPLACING one character, or INSERTING one character, at every position, by an arbitrary Unicode code point 0..0x10FFFF '
-                        '(solver variable); interval bounds of every bounded operator as arbitrary non-negative rationals with every unit combination',
+                        '(solver variable); interval bounds of every bounded operator as arbitrary non-negative rationals with every unit combination; one arbitrary character at every position of 6 literals with separators / exponents / radix prefixes and at the positions of a text with a constant, a ROS-topic annotation and an assertion; 12 concrete texts with module imports and annotations, 3 concrete 1000-level texts',
                'thorough': '12 templates, two arbitrary characters at every adjacent pair and a seeded sample of distant pairs'},
-    'outside': 'texts further than two characters from a template (in particular: long texts, deep nesting - termination is observed per explored path only, under a wall cap); module imports and ROS annotations; code points whose text is read by rtamt are enumerated by forks for ASCII and represented by the '
+    'outside': 'texts further than two characters from a template (in particular: long texts, deep nesting - termination is observed per explored path only, under a wall cap); module imports and ROS annotations beyond the listed texts; code points whose text is read by rtamt are enumerated by forks for ASCII and represented by the '
                'smallest member of their lexer class beyond ASCII',
     'assumptions': ['"derivable from the grammar" = the text, after the documented appending of a missing trailing ";", is lexed completely by the token rules of LtlLexer.g4 (longest match, first rule wins) '
                     'into a token sequence that StlParser.g4/LtlParser.g4 derive from specification_file',
